@@ -2625,7 +2625,7 @@ async fn run_c11(sc: Value) -> Outcome {
                     break;
                 } else if rounds_c.max(rounds_s) >= 2 * (STALL_K + 1) {
                     verdict = Verdict::Inconclusive(format!(
-                        "pair={pair}: stall (client={} server={}) cannot be attributed: reference peer retransmitted only {} times",
+                        "pair={pair}: stall (client={} server={}) cannot be attributed to rustrtc: the reference peer retransmitted only {} times after the heal (webrtc-rs dtls 0.17 never re-sends its final flight once Connected: the premise 'the network eventually delivers retransmitted flights' is not met)",
                         cs.name(), ss.name(), ref_rounds.unwrap_or(0)
                     ));
                     break;
